@@ -379,8 +379,9 @@ fn c02_write_without_credit_is_blocked_not_discarded() {
     kani::cover!(blocked == 1, "second write blocked");
 }
 }
-// (three writes - accepted, blocked, accepted after the credit came back - had no verdict in 40 min)
-// @verif id=C02 tier=thorough role=write_half timeout=2400 mem=24 vt=1 desc=capacity=1,two-writes,credit-returned-in-between
+// (not shipped: three writes - accepted, blocked, accepted after the credit came back - had no verdict
+// in 40 min, two accepted writes none in 30 min: every accepted write is one more pass through the
+// float latency arithmetic of `Link::enqueue_message`) C02 role=write_half desc=capacity=1,two-writes,credit-returned-in-between
 crate::verif_proof! { unwind = 8;
 fn c02_write_resumes_after_the_reader_returns_a_credit() {
     let (acc, blocked) = write_schedule::<1, 2>(0);
